@@ -200,8 +200,9 @@ fn trigger_deserialize<'a, E>(
     message: &mut Bytes,
     deserialize: EventDeserializeFn<ClientReceiveCtx<'a>, E>,
 ) -> Result<ServerTriggerEvent<E>> {
-    let len = postcard_utils::from_buf(message)?;
-    let mut targets = Vec::with_capacity(len);
+    let len: usize = postcard_utils::from_buf(message)?;
+    // Each entity takes at least one byte, so don't trust the received length for the allocation.
+    let mut targets = Vec::with_capacity(len.min(message.len()));
     for _ in 0..len {
         let entity = entity_serde::deserialize_entity(message)?;
         targets.push(ctx.get_mapped(entity));
